@@ -435,6 +435,12 @@ class DFContainer:
             self.locals.pop(place.id, None)
         else:
             self.locals[place.id] = port
+            # If this is a field or element of a struct or tuple, any wire we have
+            # previously packed for one of its parents is now out of date
+            parent: Place = place
+            while isinstance(parent, FieldAccess | TupleAccess):
+                parent = parent.parent
+                self.locals.pop(parent.id, None)
 
     def __contains__(self, place: Place) -> bool:
         return place.id in self.locals
